@@ -683,10 +683,21 @@ func (sel *Selection) Set(v val.Value) error {
 }
 
 func (sel *Selection) set(r *FieldRequest, hnd *ValueHandle) error {
+	return sel.setAfter(r, hnd, nil)
+}
+
+// setAfter writes a leaf like set; accepted runs once the constraints let the write through and
+// before the node is given the value
+func (sel *Selection) setAfter(r *FieldRequest, hnd *ValueHandle, accepted func() error) error {
 	r.Write = true
 
 	if proceed, constraintErr := sel.Constraints.CheckFieldPreConstraints(r, hnd); !proceed || constraintErr != nil {
 		return constraintErr
+	}
+	if accepted != nil {
+		if err := accepted(); err != nil {
+			return err
+		}
 	}
 
 	if err := sel.Node.Field(*r, hnd); err != nil {
